@@ -65,6 +65,36 @@ class Effects:
                             changed = True
         return out
 
+    def field_aliases(self, func, roots):
+        """local names bound to a *part* of an input object (x = root.attr[.attr...], no call in between):
+        an element store, an in-place operator or an in-place method on x changes the input.  A name
+        counts only when every assignment to it in the function is of that form (otherwise it may have
+        been rebound to a fresh object first).  Returns name -> root tuple."""
+        whole = self.aliases(func, roots)
+        cand, other = {}, set()
+        for n in walk_no_nested(func.node):
+            tg = []
+            if isinstance(n, ast.Assign):
+                tg = [t for t in n.targets]
+            elif isinstance(n, (ast.For, ast.AugAssign)):
+                tg = [n.target]
+            elif isinstance(n, ast.With):
+                tg = [it.optional_vars for it in n.items if it.optional_vars is not None]
+            for t in tg:
+                for e in (t.elts if isinstance(t, (ast.Tuple, ast.List)) else [t]):
+                    if not isinstance(e, ast.Name):
+                        continue
+                    if isinstance(n, ast.Assign) and len(n.targets) == 1 and isinstance(n.value, ast.Attribute):
+                        ch = base_chain(n.value)
+                        r = self.root_of(ch, roots, whole)
+                        if r is not None and ch is not None and ch != r and not (ch[0] in whole and len(ch) == 1):
+                            cand.setdefault(e.id, r)
+                            continue
+                    if isinstance(n, ast.AugAssign):
+                        continue      # x op= ... keeps the binding (in place for arrays)
+                    other.add(e.id)
+        return {k: v for k, v in cand.items() if k not in other and (k,) not in roots}
+
     def root_of(self, chain, roots, aliases):
         if chain is None:
             return None
@@ -82,8 +112,24 @@ class Effects:
         """List of (root, kind, node, text) for stores / in-place operations on
         objects rooted at ``roots`` inside ``func`` (no call following)."""
         al = self.aliases(func, roots)
+        fal = self.field_aliases(func, roots)
         out = []
         for n in walk_no_nested(func.node):
+            # effects through a local name bound to a part of an input (KI = self.sbi.KK; KI[i] = ...)
+            if isinstance(n, (ast.Assign, ast.AugAssign)):
+                for t in (n.targets if isinstance(n, ast.Assign) else [n.target]):
+                    for e in (t.elts if isinstance(t, ast.Tuple) else [t]):
+                        base = e
+                        sub = False
+                        while isinstance(base, ast.Subscript):
+                            base = base.value
+                            sub = True
+                        if isinstance(base, ast.Name) and base.id in fal and (sub or isinstance(n, ast.AugAssign)):
+                            out.append((fal[base.id], "store", n, "%s  [%s is bound to a part of the input]"
+                                        % (norm(n)[:80], base.id)))
+            if isinstance(n, ast.Call) and isinstance(n.func, ast.Attribute) and n.func.attr in INPLACE_METHODS \
+                    and isinstance(n.func.value, ast.Name) and n.func.value.id in fal:
+                out.append((fal[n.func.value.id], "inplace-method", n, norm(n)[:100]))
             targets = []
             if isinstance(n, ast.Assign):
                 targets = [(t, "store") for t in n.targets]
@@ -172,3 +218,59 @@ class Effects:
                             if r is not None:
                                 out.setdefault(r[0], []).append("%s: via %s(%s)" % (func.loc(c), t.short, ps[k]))
         return out
+
+
+# ----------------------------------------------------------------------
+def shared_operator_storage(prog, cls):
+    """Objects built from an array that stays reachable as a working attribute of self.
+
+    Finds `self.<obj> = Ctor(data=V)` (or `Ctor(V)`/`data=self.A`) where the array V is also kept as
+    `self.<A>` (same function: `self.A = V`, or V is `self.A`), and reports for each such pair whether
+    any method of the class, its bases or its subclasses writes `self.A` element-wise / in place.
+    Rebinding `self.A = new array` is harmless (the object keeps the old array); an in-place write
+    changes the handed-out object behind its back.
+    Returns [(FuncInfo, assign node, obj attr, array attr, [in-place writer (FuncInfo, node)])]."""
+    universe = [c for m_ in prog.modules.values() for c in m_.classes.values()
+                if c is cls or cls in prog.mro(c) or c in [b for b in prog.mro(cls) if b is not None]]
+    writers = {}
+    for c in universe:
+        for f in c.methods.values():
+            for n in walk_no_nested(f.node):
+                tg = []
+                if isinstance(n, ast.Assign):
+                    tg = n.targets
+                elif isinstance(n, ast.AugAssign):
+                    tg = [n.target]
+                for t in tg:
+                    base, sub = t, False
+                    while isinstance(base, ast.Subscript):
+                        base, sub = base.value, True
+                    if isinstance(base, ast.Attribute) and isinstance(base.value, ast.Name) and base.value.id == "self" \
+                            and (sub or isinstance(n, ast.AugAssign)):
+                        writers.setdefault(base.attr, []).append((f, n))
+    out = []
+    for c in universe:
+        for f in c.methods.values():
+            kept = {}     # local name -> self attr it is stored under
+            for n in walk_no_nested(f.node):
+                if isinstance(n, ast.Assign) and isinstance(n.value, ast.Name):
+                    for t in n.targets:
+                        if isinstance(t, ast.Attribute) and isinstance(t.value, ast.Name) and t.value.id == "self":
+                            kept[n.value.id] = t.attr
+            for n in walk_no_nested(f.node):
+                if not (isinstance(n, ast.Assign) and isinstance(n.value, ast.Call)):
+                    continue
+                objattr = [t.attr for t in n.targets if isinstance(t, ast.Attribute) and isinstance(t.value, ast.Name)
+                           and t.value.id == "self"]
+                if not objattr:
+                    continue
+                cands = [k.value for k in n.value.keywords if k.arg == "data"]
+                for v in cands:
+                    arr = None
+                    if isinstance(v, ast.Name) and v.id in kept:
+                        arr = kept[v.id]
+                    elif isinstance(v, ast.Attribute) and isinstance(v.value, ast.Name) and v.value.id == "self":
+                        arr = v.attr
+                    if arr is not None:
+                        out.append((f, n, objattr[0], arr, writers.get(arr, [])))
+    return out
